@@ -68,6 +68,12 @@ def truth_term(ctx, v):
             return True
         return (v.n != 0) if not isinstance(v.n, int) else v.n != 0
     if isinstance(v, Rec):
+        ip = getattr(ctx, 'interp', None)
+        if hasattr(v.cls, '__bool__') and ip is not None:
+            return truth_term(ctx, ip.call(ip.getattr(v, '__bool__'), []))
+        if hasattr(v.cls, '__len__') and ip is not None:
+            n = ip.call(ip.getattr(v, '__len__'), [])
+            return (n != 0) if isinstance(n, int) else int_term(n) != 0
         if hasattr(v.cls, '__len__') or hasattr(v.cls, '__bool__'):
             raise Unsupported('truthiness of object with __len__/__bool__: %s' % v.cls.__name__)
         return True
